@@ -3,6 +3,7 @@ package c04
 import (
 	"verif/harness/core"
 	"verif/harness/indep/ser"
+	"verif/harness/indep/strict"
 )
 
 // selfTest: the machinery must notice (i) corrupted records, (ii) the
@@ -38,12 +39,22 @@ func selfTest(ctx *core.Ctx) error {
 	}
 	lbad := lgood
 	lbad.Got--
-	recs := []any{good, stale, good, oldTrailer, notOpen, resurrect, lgood, lbad}
+	// a file as seen by the strict parser, intact and with one object moved
+	fgood, err := strict.Parse(res.Bytes)
+	if err != nil {
+		return core.Infra("self-test: %v", err)
+	}
+	jgood := strict.ToJSON(fgood)
+	jbad := strict.ToJSON(fgood)
+	o0 := jbad["objects"].([]any)[0].(map[string]any)
+	o0["off"] = o0["off"].(int64) + 1
+	recs := []any{good, stale, good, oldTrailer, notOpen, resurrect, lgood, lbad,
+		map[string]any{"t": "file", "file": jgood}, map[string]any{"t": "file", "file": jbad}}
 	bad, err := core.JudgeCases(ctx, tlcOpts(), recs, 20, 1)
 	if err != nil {
 		return err
 	}
-	want := []int{1, 3, 4, 5, 7}
+	want := []int{1, 3, 4, 5, 7, 9}
 	if len(bad) != len(want) {
 		return core.Infra("self-test: corrupted records not singled out: %v, want %v", bad, want)
 	}
@@ -52,7 +63,7 @@ func selfTest(ctx *core.Ctx) error {
 			return core.Infra("self-test: corrupted records not singled out: %v, want %v", bad, want)
 		}
 	}
-	ctx.Logf("self-test (i): corrupted records rejected (stale value, old trailer, open failure, resurrected object, wrong extent), intact ones accepted")
+	ctx.Logf("self-test (i): corrupted records rejected (stale value, old trailer, open failure, resurrected object, wrong extent, file with an entry off by one), intact ones accepted")
 
 	// (ii) negative controls of the design model
 	r1, err := ctx.TLC(core.TLCOpts{Dir: specDir, Module: "MC_XRefHistory", Cfg: "MC_XRefHistory_ascoded.cfg", Workers: 8, Mode: "negative-control", XssMB: 512})
